@@ -1,11 +1,10 @@
 import CssVerif.Lemmas.Tok
 import CssVerif.Lemmas.TokLex
-import CssVerif.Lemmas.TokStr
 /-!
 # C05 — tokenizer: total, lossless, position-accurate, classifies by the grammar
 
-Property theorems only (helpers and the specification functions `unescape`, `stripCont`, `lc`, `tokenValue`
-are in `Lemmas/Tok.lean`). Model: `Model/Tok.lean` (`tokenize text fullsheet doComments`), tables:
+Property theorems only (helpers and the specification functions `unescape`, `stringValue`, `lc`, `tokenValue`
+are in `Model/TokSpec.lean`). Model: `Model/Tok.lean` (`tokenize text fullsheet doComments`), tables:
 `Gen/C05Productions.lean` (regenerated from `cssproductions.py` / `tokenize2.py` / `helper.py` on every run),
 tied to the code by the differential correspondence of `tools/harness/c05.py`.
 
@@ -126,8 +125,10 @@ replacement callback that calls `int(…, 16)` — is, for every string, exactly
 `unescape` (it never raises). -/
 theorem unicodesub_is_unescape (s : Cps) : subU s = some (unescape s) := subU_eq_unescape s
 
-/-- `cleanstring('', ·)` is the independent one-pass remover of backslash-newline -/
-theorem cleanstring_is_stripCont (s : Cps) : subClean s = some (stripCont s) := subClean_eq_stripCont s
+/-- **T5.4 (string decoding)**: what `stringsub(_repl, ·)` computes is, for every string, exactly the independent
+one-pass string decoder `stringValue` — escaped backslash kept, backslash-newline dropped, hex escapes decoded, all
+decided on the source text (it never raises). -/
+theorem stringsub_is_stringValue (s : Cps) : subS s = some (stringValue s) := subS_eq_stringValue s
 
 /-! `unescape` is characterised by these equations (it is defined without regular expressions in
 `Lemmas/Tok.lean`; `runLen isHex t 6` = number of leading hex digits, at most 6; `wsLen` = length of the optional
@@ -166,12 +167,11 @@ theorem unescape_hex (d : Nat) (u : Cps) (h : isHex d = true) :
   have : 1 ≤ runLen isHex (d :: u) 6 := by simp [runLen, h]
   simp only [List.length_drop, List.length_cons]; omega
 
-/-- **T5.4 values**: every token's value is `tokenValue typ found` — `unescape found` for the nine listed types,
-with `stripCont` applied afterwards for STRING / INVALID, `found` itself for every other type — where `found` is the
-token's span (plus the completion for the last token of a full sheet, `found_is_span`). The one exception is
-the comment completed at the end of a full sheet, which is yielded as written (tokenize2.py:173). -/
-theorem values (text : Cps) (full doC : Bool) : ∀ it ∈ body text full doC,
-    it.value = tokenValue it.typ it.found ∨ (full = true ∧ it.typ = "COMMENT" ∧ it.value = it.found) :=
+/-- **T5.4 values**: every token's value is `tokenValue typ found` — `stringValue found` (one-pass string
+decoding) for STRING, INVALID and URI, `unescape found` for the other listed types (DIMENSION, IDENT, HASH, FUNCTION,
+UNICODE-RANGE), `found` itself for every other type, comments included — where `found` is the token's span (plus
+the completion for the last token of a full sheet, `found_is_span`). No exception. -/
+theorem values (text : Cps) (full doC : Bool) : ∀ it ∈ body text full doC, it.value = tokenValue it.typ it.found :=
   fun it h => (body_itemsOK_mem text full doC it h).2
 
 /-- outside full-sheet mode: the value of every token is the decoding of exactly its span -/
@@ -180,61 +180,77 @@ theorem values_partial_sheet (text : Cps) (doC : Bool) (a : List Item) (it : Ite
   have hmem : it ∈ body text false doC := by
     unfold body; rw [h]; simp
   rcases found_is_span text false doC a it b h with hf | ⟨hf, _⟩
-  · rcases values text false doC it hmem with hv | ⟨hv, _⟩
-    · rw [hv, hf]
-    · cases hv
+  · rw [values text false doC it hmem, hf]
   · cases hf
 
-/- Full-strength reading of T5.4 for STRING / INVALID tokens (decoding decided on the source text, in one pass):
-     it.typ ∈ cleanTypes → it.value = stringValue it.found
-   It fails (known finding C05-clean-decoded-newline): `cleanstring` runs on the decoded text, so a newline that was
-   written as a hex escape is removed together with a backslash that precedes it in the DECODED text — the second
-   half of an escaped backslash, or the backslash of a continuation backslash-CR followed by an escaped LF. -/
-
-/-- **known finding C05-clean-decoded-newline** (machine-checked): the STRING `"\\\a "` (quote, escaped backslash,
-hex escape of LF with terminator, quote) denotes backslash + line feed, `stringValue` says so, but the token's value is
-`"\"` — quote, backslash, quote: the value's closing quote now reads as escaped. -/
-theorem clean_decoded_newline_witness :
-    (tokenize [0x22, 0x5C, 0x5C, 0x5C, 0x61, 0x20, 0x22] false true).tokens.map (fun t => (t.typ, t.value)) =
-      [("STRING", [0x22, 0x5C, 0x22])] ∧
-    stringValue [0x22, 0x5C, 0x5C, 0x5C, 0x61, 0x20, 0x22] = [0x22, 0x5C, 0x5C, 0x0A, 0x22] ∧
-    tokenValue "STRING" [0x22, 0x5C, 0x5C, 0x5C, 0x61, 0x20, 0x22] = [0x22, 0x5C, 0x22] := by
-  refine ⟨by decide +kernel, by decide +kernel, by decide +kernel⟩
-
-/-- the second shape of the same finding: continuation backslash-CR, then a hex-escaped LF -/
-example : stringValue [0x22, 0x5C, 0x0D, 0x5C, 0x61, 0x20, 0x22] = [0x22, 0x0A, 0x22] ∧
-    tokenValue "STRING" [0x22, 0x5C, 0x0D, 0x5C, 0x61, 0x20, 0x22] = [0x22, 0x22] := by
-  constructor <;> decide +kernel
-
-/-- outside the region the two readings agree, e.g. `"a\<LF>b\41 "` -/
-example : stringValue [0x22, 0x61, 0x5C, 0x0A, 0x62, 0x5C, 0x34, 0x31, 0x20, 0x22] =
-    tokenValue "STRING" [0x22, 0x61, 0x5C, 0x0A, 0x62, 0x5C, 0x34, 0x31, 0x20, 0x22] := by decide +kernel
-
-/-- **T5.4 for STRING / INVALID, one-pass reading, under the guard** `safe found` (Lemmas/TokStr.lean: a single pass
-over the source text that answers `false` exactly when a decoded newline directly follows an escaped backslash —
-written `\\` or as a hex escape of U+005C — or a decoded LF directly follows a continuation backslash-CR, i.e. in the
-region of the known finding): the value is `stringValue found` — escaped backslash kept, backslash-newline
-dropped, hex escapes decoded, all decided on the source text. -/
-theorem string_values_partial (text : Cps) (full doC : Bool) : ∀ it ∈ body text full doC,
-    cleanTypes.contains it.typ = true → safe it.found = true → it.value = stringValue it.found := by
-  intro it hit hcl hsafe
+/-- **T5.4 for STRING / INVALID / URI, at full strength** (no guard; before the fix "a line break written as an
+escape in a string is no longer taken for a line continuation" this needed the guard `safe found`): the value is the
+one-pass reading `stringValue found`. -/
+theorem string_values (text : Cps) (full doC : Bool) : ∀ it ∈ body text full doC,
+    cleanTypes.contains it.typ = true → it.value = stringValue it.found := by
+  intro it hit hcl
   have hun : unescTypes.contains it.typ = true := by
     have : ∀ t ∈ cleanTypes, unescTypes.contains t = true := by decide
     exact this _ (by simpa using hcl)
-  rcases values text full doC it hit with hv | ⟨_, hc, _⟩
-  · rw [hv]
-    unfold tokenValue
-    rw [if_pos hun, if_pos hcl]
-    exact safe_stringValue _ hsafe
-  · rw [hc] at hcl
-    have : cleanTypes.contains "COMMENT" = false := by decide
-    rw [this] at hcl; cases hcl
+  rw [values text full doC it hit]
+  unfold tokenValue
+  rw [if_pos hun, if_pos hcl]
 
-/-- the guard excludes both shapes of the finding and admits ordinary strings -/
-example : safe [0x22, 0x5C, 0x5C, 0x5C, 0x61, 0x20, 0x22] = false := by decide +kernel
-example : safe [0x22, 0x5C, 0x0D, 0x5C, 0x61, 0x20, 0x22] = false := by decide +kernel
-example : safe [0x22, 0x61, 0x5C, 0x0A, 0x62, 0x5C, 0x34, 0x31, 0x20, 0x5C, 0x5C, 0x5C, 0x22, 0x22] = true := by
-  decide +kernel
+/-- **comments are verbatim**: the value of a COMMENT token is its text (its span, plus the closing delimiter for a
+comment completed at the end of a full sheet) -/
+theorem comments_verbatim (text : Cps) (full doC : Bool) : ∀ it ∈ body text full doC,
+    it.typ = "COMMENT" → it.value = it.found := by
+  intro it hit hc
+  rw [values text full doC it hit, hc]
+  exact tokenValue_plain _ _ (by decide)
+
+/-! `stringValue` is characterised by these equations (and `unescape_hex`'s analogue for hex escapes) -/
+theorem stringValue_plain (c : Nat) (t : Cps) (h : c ≠ 92) : stringValue (c :: t) = c :: stringValue t := by
+  show stringValueF (t.length + 1) (c :: t) = _
+  simp only [stringValueF, h, ne_eq, not_false_eq_true, if_true]
+  rfl
+
+theorem stringValue_pair (t : Cps) : stringValue (92 :: 92 :: t) = 92 :: 92 :: stringValue t := by
+  show stringValueF (t.length + 1 + 1) (92 :: 92 :: t) = _
+  simp only [stringValueF, ne_eq, not_true_eq_false, if_false, if_true]
+  rw [stringValueF_fuel _ _ (Nat.le_succ _)]
+
+/-- a line continuation is dropped: backslash CR LF, or backslash + one of LF, CR, FF -/
+theorem stringValue_continuation_crlf (t : Cps) : stringValue (92 :: 13 :: 10 :: t) = stringValue t := by
+  show stringValueF (t.length + 1 + 1 + 1) (92 :: 13 :: 10 :: t) = _
+  rw [stringValueF]
+  simp only [ne_eq, not_true_eq_false, if_false, List.head?_cons, and_self, if_true, List.drop_succ_cons,
+    List.drop_zero, show ¬ (13 : Nat) = 92 by decide]
+  exact stringValueF_fuel _ _ (by omega)
+
+theorem stringValue_continuation (d : Nat) (t : Cps) (h : isNl d = true) (h2 : ¬ (d = 13 ∧ t.head? = some 10)) :
+    stringValue (92 :: d :: t) = stringValue t := by
+  have hd : d ≠ 92 := by intro e; subst e; revert h; decide
+  show stringValueF (t.length + 1 + 1) (92 :: d :: t) = _
+  rw [stringValueF]
+  simp only [ne_eq, not_true_eq_false, if_false, hd, h2, h, if_true]
+  exact stringValueF_fuel _ _ (by omega)
+
+/-- **regression witness of the repaired defect C05-clean-decoded-newline** (machine-checked): the STRING `"\\\a "`
+(quote, escaped backslash, hex escape of LF with terminator, quote) denotes backslash + line feed, and that is the
+token's value now (it was `"\"`: the decoded LF had been removed together with the second backslash). -/
+theorem clean_decoded_newline_witness :
+    (tokenize [0x22, 0x5C, 0x5C, 0x5C, 0x61, 0x20, 0x22] false true).tokens.map (fun t => (t.typ, t.value)) =
+      [("STRING", [0x22, 0x5C, 0x5C, 0x0A, 0x22])] ∧
+    stringValue [0x22, 0x5C, 0x5C, 0x5C, 0x61, 0x20, 0x22] = [0x22, 0x5C, 0x5C, 0x0A, 0x22] := by
+  refine ⟨by decide +kernel, by decide +kernel⟩
+
+/-- the second shape: continuation backslash-CR, then a hex-escaped LF — the LF stays -/
+example : (tokenize [0x22, 0x5C, 0x0D, 0x5C, 0x61, 0x20, 0x22] false true).tokens.map (fun t => (t.typ, t.value)) =
+    [("STRING", [0x22, 0x0A, 0x22])] := by decide +kernel
+
+/-- a continuation inside a quoted `url()` is dropped too: `url("a\<LF>b")` -/
+example : (tokenize [117, 114, 108, 40, 0x22, 97, 0x5C, 0x0A, 98, 0x22, 41] false true).tokens.map
+    (fun t => (t.typ, t.value)) = [("URI", [117, 114, 108, 40, 0x22, 97, 98, 0x22, 41])] := by decide +kernel
+
+/-- a comment is verbatim: `/*a\2a/b*/` -/
+example : (tokenize [47, 42, 97, 0x5C, 50, 97, 47, 98, 42, 47] false true).tokens.map (fun t => (t.typ, t.value)) =
+    [("COMMENT", [47, 42, 97, 0x5C, 50, 97, 47, 98, 42, 47])] := by decide +kernel
 
 /-! ## T5.5 error reports -/
 
